@@ -25,6 +25,7 @@ UNIT = Unit(
     prelude=["core.rs", "raw.rs", "iter.rs", "crypto.rs", "state_abs.rs", "num.rs", "melswap.rs"],
     lemmas=["sums.rs", "iterlem.rs", "coinsview.rs", "tips.rs", "apply.rs", "stateinv.rs", "microergs.rs", "chaininv.rs", "chainlem.rs", "mint.rs"],
     items=[
+        *pk_stubs(),
         Fn(DEP_MELSWAP, "new_empty", impl="PoolState", mode="assume", **ps_new_empty()),
         Fn(DEP_MELSWAP, "swap_many", impl="PoolState", mode="assume", **ps_swap_many()),
         Fn(DEP_MELSWAP, "deposit", impl="PoolState", mode="assume", **ps_deposit()),
